@@ -546,6 +546,11 @@ class World:
             if isinstance(a, (int, float)) and isinstance(b, (int, float)) and not isinstance(a, bool) and not isinstance(b, bool):
                 return a + b if t[1] == "+" else (a - b if t[1] == "-" else a * b)
             raise Unrecognised(f"arithmetic on non-numeric model values in {key(t)}")
+        if k == "un" and t[1] == "-":
+            a = self.eval(t[2])
+            if isinstance(a, (int, float)) and not isinstance(a, bool):
+                return -a
+            raise Unrecognised(f"negation of a non-numeric model value in {key(t)}")
         if k == "tuple":
             return tuple(self.eval(x) for x in t[1])
         if k == "list":
